@@ -342,6 +342,42 @@ def blockLoopFrom (cfg : Config) (solver : Solver) : Nat → List Block → Vari
 def steadyNonlinear (cfg : Config) (solver : Solver) (blocks : List Block) (v : Variant) : Except Err Variant :=
   blockLoopFrom cfg solver 0 blocks v
 
+/-! ### An executable certificate for one solver answer -/
+
+/-- a stored change that `create_steady_array` and the evaluator read in the same way (executable form of `ChangeOK`) -/
+def changeOK? (lg : Bool) (c : Cell) : Bool :=
+  !lg || (match c with
+    | none => true
+    | some x => decide (0 < x))
+
+/-- executable (sufficient) check of the side conditions under which the evaluator's array at the guess `g` is the
+steady array of the written-back variant (`GoodGuess` in `Props/C05.lean`): the guess has an entry per unknown,
+entries of log-variables are positive, change unknowns are variables, block quantities held fixed by the plan have
+usable assigned values, and the flat evaluator sits on a flat variant -/
+def goodGuess? (loggable : Nat → Bool) (ev : Evaluator) (g : List Rat) : Bool :=
+  decide (ev.wrtLevel.length + ev.wrtChange.length ≤ g.length)
+  && (ev.wrtLevel.zip (ev.guessLevels g)).all (fun qx => !ev.logly qx.1 || decide (0 < qx.2))
+  && (ev.wrtChange.zip (ev.guessChanges g)).all (fun qx => !ev.logly qx.1 || decide (0 < qx.2))
+  && ev.wrtChange.all loggable
+  && ev.wrtChange.all (fun q => ev.wrtLevel.contains q || (match ev.base.level q with
+      | some l => !ev.logly q || decide (0 < l)
+      | none => false))
+  && (ev.flat || ev.wrtLevel.all (fun q => ev.wrtChange.contains q || changeOK? (ev.logly q) (ev.base.change q)))
+  && (!ev.flat || ev.wrtChange.isEmpty)
+  && (!ev.flat || (ev.wrtLevel ++ ev.wrtChange).all (fun q => changeOK? (ev.logly q) (ev.base.change q)
+        && decide (Evaluator.fillChange (ev.logly q) (ev.base.change q) = (if ev.logly q then 1 else 0))))
+
+/-- the acceptance step of `_steady_nonlinear` around an arbitrary iteration: an answer is taken only if it passes the
+exit test (otherwise `success` is false and the block error is raised) -- here together with the certificate above -/
+def certify (tol : Rat) (loggable : Nat → Bool) (s : Solver) : Solver := fun bid ev =>
+  match s bid ev with
+  | some g => if exitTest tol (ev.resid g) && goodGuess? loggable ev g then some g else none
+  | none => none
+
+def isOk : Except Err Variant → Bool
+  | .ok _ => true
+  | .error _ => false
+
 /-! ### Steady autovalues: all right-hand sides are evaluated first, then assigned -/
 
 def updateAutovalues (logly : Nat → Bool) (autos : List (Nat × Expr)) (v : Variant) : Variant :=
@@ -368,6 +404,14 @@ def solveNonflat (A B C : QMat) : Option (QMat × QMat) :=
 
 /-- measurement block: `y = (-F) \ (G ξ + H)` -/
 def solveMeasurement (F G H xi : QMat) : Option QMat := QMat.solveChecked (-F) (G * xi + H)
+
+/-- the measurement block of `solve_steady_linear_nonflat`: the stacked system `[[F, 0], [F, kF]] (y; Δy) =
+-([[G, 0], [G, kG]] (ξ; Δξ) + (H; H))`, `k = 1`, is block-triangular; solved exactly it is the level solve
+`F y = -(G ξ + H)` followed by `F Δy = -G Δξ` (second block row minus the first) -/
+def solveMeasurementNonflat (F G H xi dxi : QMat) : Option (QMat × QMat) :=
+  match solveMeasurement F G H xi, solveMeasurement F G (QMat.zero H.rows 1) dxi with
+  | some y, some dy => some (y, dy)
+  | _, _ => none
 
 /-- residual of the transition system on the path `ξ + t Δξ` at date `t` -/
 def residAt (A B C xi dxi : QMat) (t : Rat) : QMat :=
